@@ -1,6 +1,7 @@
 """C02 — parsing depends only on the bytes; one bad frame = one error (DESIGN §4 C02).
 
 Tier T1: the "network" is the list of cuts of the byte stream; the two stream consumers are driven directly.
+Tier T2: the same cases through SimNet into the real endpoint receive loops (drivers of props/c01.py, see T2_PATHS).
 The driver is pluggable (``PATHS``): a later tier pushes the same cases through simulated sockets into the real
 endpoint receive loops by registering another ``(protocol class, make_driver(protocol, world))`` pair.
 
@@ -38,6 +39,7 @@ from models.frames import (
     same_outcomes,
     split_frames,
 )
+from props.c01 import AsyncEndpointDriver, SyncEndpointDriver, bounded_cuts
 from vsim.chunk import CopyDriver, FillDriver, cuts_to_chunks, gen_cuts, run_stream
 from vsim.runner import Harness
 from vsim.world import HarnessError, Violation, World
@@ -54,15 +56,16 @@ RULE = (
     "limits 8..128; chunking families {whole, byte-by-byte, 1 cut, 2 cuts, fixed size, k random cuts, structural cuts around separators, "
     "multi-byte characters, escape bytes and frame boundaries}; both receive paths (copy: StreamDataConsumer, fill: "
     "BufferedStreamDataConsumer with buffer size hints 1..16384 and short fills); oracle = frame-by-frame reference decoder "
-    "(models/frames.py); a run is non-trivial when the stream was fragmented and at least one packet was delivered"
+    "(models/frames.py); a run is non-trivial when the stream was fragmented and at least one packet was delivered; tier T2 (~18 % of the runs): the same streams through SimNet into the four real endpoint receive loops (blocking StreamEndpoint in poll and blocking modes, AsyncStreamEndpoint with gaps / head start / slow receiver; copy and buffer-filling receivers; max_recv_size 1..16384), StreamProtocolParseError from recv_packet mapped to the same outcome vocabulary"
 )
 COMPONENTS_REAL = [
     "easynetwork.serializers.* (line, json, base64 wrapper, struct, base_stream, tools)",
     "easynetwork.protocol",
     "easynetwork.lowlevel._stream consumers",
+    "T2: easynetwork.lowlevel.api_sync.endpoints.stream.StreamEndpoint + SocketStreamTransport, api_async.endpoints.stream.AsyncStreamEndpoint + asyncio stream adapter",
     "easynetwork.exceptions.LimitOverrunError",
 ]
-COMPONENTS_STUB = ["the network: replaced by the list of cuts of the byte stream (T1)"]
+COMPONENTS_STUB = ["the network: replaced by the list of cuts of the byte stream (T1)", "T2: SimSocket / SimSelector / SimEventLoop, scripted peer, virtual clock"]
 ASSUMPTIONS = [
     "frames that may be rejected for their size use an alphabet disjoint from later frames' so that junk after a rejection is attributable (DESIGN C02 oracle 2)",
     "one-shot deserialize() of a fresh serializer instance defines what a frame means",
@@ -90,6 +93,32 @@ PATHS: dict[str, tuple[Callable[[Any], Any], Callable[[Any, World], Any]]] = {
     "copy": (StreamProtocol, _drv_copy),
     "fill": (BufferedStreamProtocol, _drv_fill),
 }
+
+
+# --------------------------------------------------------------------------------------------------- tier T2
+# The same streams through SimNet into the four real endpoint receive loops.  The drivers are C01's (props/c01.py),
+# reused by import: blocking StreamEndpoint over SocketStreamTransport(SimSocket) under the sync engine (poll mode:
+# recv_packet(timeout=0) after every chunk; blocking mode: scripted fragments with delays, then FIN), and
+# AsyncStreamEndpoint over the asyncio adapter on SimEventLoop (gaps, head start, slow receiver).  They are deferred:
+# feed() records the chunk, finish() runs the scenario.  For C02 a StreamProtocolParseError raised by recv_packet()
+# is an outcome ("err", inner class), not the end of the run.
+class _C02SyncEndpointDriver(SyncEndpointDriver):
+    stop_on_parse_error = False
+
+
+class _C02AsyncEndpointDriver(AsyncEndpointDriver):
+    stop_on_parse_error = False
+
+
+T2_MAX_CHUNKS = 96  # one chunk = one socket delivery + one or more recv_packet() calls: keep a run at a few ms
+
+T2_PATHS: dict[str, tuple[Callable[[Any], Any], Callable[[Any, World], Any]]] = {
+    "t2sync-copy": (StreamProtocol, lambda protocol, world: _C02SyncEndpointDriver(protocol, world, False)),
+    "t2sync-fill": (BufferedStreamProtocol, lambda protocol, world: _C02SyncEndpointDriver(protocol, world, False)),
+    "t2aio-copy": (StreamProtocol, lambda protocol, world: _C02AsyncEndpointDriver(protocol, world, False)),
+    "t2aio-fill": (BufferedStreamProtocol, lambda protocol, world: _C02AsyncEndpointDriver(protocol, world, False)),
+}
+PATHS.update(T2_PATHS)
 
 
 # =================================================================================================== case description
@@ -687,11 +716,18 @@ def run_case(world: World, family: str, path: str) -> None:
     if any(o[0] == "crash" for o in ref):
         raise HarnessError(f"one-shot reference crashed on a generated frame: {ref} {case.frames}")
 
-    cuts = gen_cuts(world, len(stream), case.structural)
+    if path in T2_PATHS:
+        cuts = bounded_cuts(world, len(stream), case.structural, T2_MAX_CHUNKS)
+    else:
+        cuts = gen_cuts(world, len(stream), case.structural)
     chunks = cuts_to_chunks(stream, cuts)
     wrap, make_driver = PATHS[path]
     drv = make_driver(wrap(case.make()), world)
     out = run_stream(drv, chunks)
+    finish = getattr(drv, "finish", None)
+    if finish is not None:  # deferred (T2) drivers run the whole scenario here
+        finish()
+        out = drv.out
 
     world.log("run", path, family, len(case.frames), len(chunks), tuple(o[0] for o in out))
     world.notes.update(
@@ -710,7 +746,8 @@ def run_case(world: World, family: str, path: str) -> None:
 
     site = f"{family}/{path}"
     sizes = [len(c) for c in chunks]
-    ctx = f"{case.desc}\n frames={case.frames}\n stream={stream!r}\n chunk sizes={sizes}\n got {_short(out)}\n ref {ref}"
+    t2 = {k: world.notes[k] for k in ("max_recv_size", "t2_mode", "retry_interval", "gap", "head_start", "slow_receiver") if k in world.notes}
+    ctx = f"{case.desc}\n frames={case.frames}\n stream={stream!r}\n chunk sizes={sizes} {t2 or ''}\n got {_short(out)}\n ref {ref}"
     for o in out:
         if o[0] == "crash":
             raise Violation("no-crash", f"{o} escaped; {ctx}", key=f"C02/{site}/crash/{o[1]}")
@@ -740,15 +777,14 @@ def _harness(family: str, path: str, weight: int = 1) -> Harness:
     return Harness(f"{family}-{path}", lambda w: run_case(w, family, path), weight=weight)
 
 
-HARNESSES = [
-    _harness("line", "copy", 2),
-    _harness("line", "fill", 2),
-    _harness("jsonl", "copy"),
-    _harness("b64", "copy"),
-    _harness("b64", "fill"),
-    _harness("autosep", "copy", 2),
-    _harness("autosep", "fill", 2),
-    _harness("jsonraw", "copy", 2),
-    _harness("fixed", "copy"),
-    _harness("fixed", "fill"),
-]
+# T1 runs cost ~0.5 ms, T2 runs a few ms: T1 weights x6, every T2 harness weight 1 (20 of 110 = 18 % of the runs)
+_T1 = [("line", 2, True), ("jsonl", 1, False), ("b64", 1, True), ("autosep", 2, True), ("jsonraw", 2, False), ("fixed", 1, True)]
+HARNESSES = []
+for _family, _w, _buffered in _T1:
+    HARNESSES.append(_harness(_family, "copy", 6 * _w))
+    if _buffered:
+        HARNESSES.append(_harness(_family, "fill", 6 * _w))
+for _family, _w, _buffered in _T1:
+    for _path in T2_PATHS:
+        if _buffered or _path.endswith("-copy"):
+            HARNESSES.append(_harness(_family, _path, 1))
